@@ -134,7 +134,7 @@ def step (d : Desc K V) (m : LMap K V) : Op K V → LMap K V × Out K V
     | some v => ({ m with order := moveLast m.order k }, .val v)
     | none => (m, .none)
   | .containsKey k => (m, .bool (!d.blind k && (m.get hash k).isSome))
-  | .containsValue v => (m, .bool (m.tab.entries.any (fun e => decide (e.2 = v))))
+  | .containsValue v => (m, .bool (m.tab.entries.any (fun e => d.veq e.2 v)))
   | .firstKey => (m, .ofKey m.order.head?)
   | .lastKey => (m, .ofKey m.order.getLast?)
   | .firstValue => (m, .ofVal (m.order.head?.bind (m.get hash)))
